@@ -22,6 +22,7 @@ import (
 	"strings"
 	"sync"
 	"sync/atomic"
+	"syscall"
 	"time"
 
 	"github.com/spf13/afero"
@@ -51,14 +52,14 @@ func (t treeSpec) entries() int {
 }
 
 type fsEnv struct {
-	sh    *shim.Fs
-	inner afero.Fs
-	fs    *filesystem.VFS
-	spec  treeSpec
-	open  filesystem.File // a handle some entry points need (opened before the hook is armed)
-	result []string           // what the call handed back (see setResult)
-	pmap  func(string) string // canonical path ("/t/...") -> path on this back end (nil: identity)
-	base  string              // OS back end: the scratch directory of this environment
+	sh     *shim.Fs
+	inner  afero.Fs
+	fs     *filesystem.VFS
+	spec   treeSpec
+	open   filesystem.File     // a handle some entry points need (opened before the hook is armed)
+	result []string            // what the call handed back (see setResult)
+	pmap   func(string) string // canonical path ("/t/...") -> path on this back end (nil: identity)
+	base   string              // OS back end: the scratch directory of this environment
 }
 
 // setResult records what the call handed back (listing, content, digest, ...) in a form comparable between runs
@@ -266,6 +267,7 @@ type entryPoint struct {
 	Name        string
 	Zip         bool // needs /t/a.zip
 	RenameFails bool // the back end refuses Rename (cross-device), which sends Move down its copy-and-delete path
+	RemoveFault int  // the back end refuses its j-th Remove once with EPERM (steers RemoveWithPrivileges into its escalation path); 0: never
 	Concurrent  bool // fans out goroutines that may outlive the call: wait for the back end to go quiet before counting
 	Prep        func(e *fsEnv) error
 	Run         func(ctx context.Context, e *fsEnv) error
@@ -274,7 +276,7 @@ type entryPoint struct {
 
 var errCrossDevice = errors.New("invalid cross-device link")
 
-func noopWalk(string, os.FileInfo, error) error { return nil }
+func noopWalk(string, os.FileInfo, error) error         { return nil }
 func passWalk(_ string, _ os.FileInfo, err error) error { return err }
 
 func entryPoints() []entryPoint {
@@ -287,7 +289,11 @@ func entryPoints() []entryPoint {
 		{Name: "WalkExcl", Methods: []string{"WalkWithContextAndExclusionPatterns"}, Run: func(ctx context.Context, e *fsEnv) error {
 			return e.fs.WalkWithContextAndExclusionPatterns(ctx, e.P("/t/src"), e.recWalk, "f000.*")
 		}},
-		{Name: "ReadFile", Methods: []string{"ReadFileWithContext"}, Run: func(ctx context.Context, e *fsEnv) error { res, err := e.fs.ReadFileWithContext(ctx, e.P("/t/src/big.bin")); e.setResult(res); return err }},
+		{Name: "ReadFile", Methods: []string{"ReadFileWithContext"}, Run: func(ctx context.Context, e *fsEnv) error {
+			res, err := e.fs.ReadFileWithContext(ctx, e.P("/t/src/big.bin"))
+			e.setResult(res)
+			return err
+		}},
 		{Name: "ReadFileLimits", Methods: []string{"ReadFileWithContextAndLimits"}, Run: func(ctx context.Context, e *fsEnv) error {
 			res, err := e.fs.ReadFileWithContextAndLimits(ctx, e.P("/t/src/big.bin"), lim())
 			e.setResult(res)
@@ -317,13 +323,23 @@ func entryPoints() []entryPoint {
 			return e.fs.RemoveWithContextAndExclusionPatterns(ctx, e.P("/t/src"), "d000")
 		}},
 		{Name: "RemoveWithPrivileges", Methods: []string{"RemoveWithPrivileges"}, Run: func(ctx context.Context, e *fsEnv) error { return e.fs.RemoveWithPrivileges(ctx, e.P("/t/src")) }},
+		{Name: "RemoveWithPrivilegesFault1", RemoveFault: 1, Methods: []string{"RemoveWithPrivileges"}, Run: func(ctx context.Context, e *fsEnv) error { return e.fs.RemoveWithPrivileges(ctx, e.P("/t/src")) }},
+		{Name: "RemoveWithPrivilegesFault4", RemoveFault: 4, Methods: []string{"RemoveWithPrivileges"}, Run: func(ctx context.Context, e *fsEnv) error { return e.fs.RemoveWithPrivileges(ctx, e.P("/t/src")) }},
 		{Name: "Chmod", Methods: []string{"ChmodRecursively"}, Run: func(ctx context.Context, e *fsEnv) error { return e.fs.ChmodRecursively(ctx, e.P("/t/src"), 0o700) }},
-		{Name: "ChmodFile", Methods: []string{"ChmodRecursively"}, Run: func(ctx context.Context, e *fsEnv) error { return e.fs.ChmodRecursively(ctx, e.P("/t/src/a/b/c.txt"), 0o700) }},
-		{Name: "Chown", Methods: []string{"ChownRecursively"}, Run: func(ctx context.Context, e *fsEnv) error { return e.fs.ChownRecursively(ctx, e.P("/t/src"), 1234, 1234) }},
+		{Name: "ChmodFile", Methods: []string{"ChmodRecursively"}, Run: func(ctx context.Context, e *fsEnv) error {
+			return e.fs.ChmodRecursively(ctx, e.P("/t/src/a/b/c.txt"), 0o700)
+		}},
+		{Name: "Chown", Methods: []string{"ChownRecursively"}, Run: func(ctx context.Context, e *fsEnv) error {
+			return e.fs.ChownRecursively(ctx, e.P("/t/src"), 1234, 1234)
+		}},
 		{Name: "ChangeOwnership", Methods: []string{"ChangeOwnershipRecursively"}, Run: func(ctx context.Context, e *fsEnv) error {
 			return e.fs.ChangeOwnershipRecursively(ctx, e.P("/t/src"), me)
 		}},
-		{Name: "LsRecursive", Methods: []string{"LsRecursive"}, Run: func(ctx context.Context, e *fsEnv) error { res, err := e.fs.LsRecursive(ctx, e.P("/t/src"), true); e.setResult(res); return err }},
+		{Name: "LsRecursive", Methods: []string{"LsRecursive"}, Run: func(ctx context.Context, e *fsEnv) error {
+			res, err := e.fs.LsRecursive(ctx, e.P("/t/src"), true)
+			e.setResult(res)
+			return err
+		}},
 		{Name: "LsRecursiveExcl", Methods: []string{"LsRecursiveWithExclusionPatterns"}, Run: func(ctx context.Context, e *fsEnv) error {
 			res, err := e.fs.LsRecursiveWithExclusionPatterns(ctx, e.P("/t/src"), false, "f000.*")
 			e.setResult(res)
@@ -339,8 +355,12 @@ func entryPoints() []entryPoint {
 			e.setResult(res)
 			return err
 		}},
-		{Name: "Move", Methods: []string{"MoveWithContext"}, Run: func(ctx context.Context, e *fsEnv) error { return e.fs.MoveWithContext(ctx, e.P("/t/src"), e.P("/t/moved/dst")) }},
-		{Name: "MoveNoRename", RenameFails: true, Methods: []string{"MoveWithContext"}, Run: func(ctx context.Context, e *fsEnv) error { return e.fs.MoveWithContext(ctx, e.P("/t/src"), e.P("/t/moved/dst")) }},
+		{Name: "Move", Methods: []string{"MoveWithContext"}, Run: func(ctx context.Context, e *fsEnv) error {
+			return e.fs.MoveWithContext(ctx, e.P("/t/src"), e.P("/t/moved/dst"))
+		}},
+		{Name: "MoveNoRename", RenameFails: true, Methods: []string{"MoveWithContext"}, Run: func(ctx context.Context, e *fsEnv) error {
+			return e.fs.MoveWithContext(ctx, e.P("/t/src"), e.P("/t/moved/dst"))
+		}},
 		{Name: "MoveFileNoRename", RenameFails: true, Methods: []string{"MoveWithContext"}, Run: func(ctx context.Context, e *fsEnv) error {
 			return e.fs.MoveWithContext(ctx, e.P("/t/src/big.bin"), e.P("/t/moved/big.bin"))
 		}},
@@ -355,7 +375,9 @@ func entryPoints() []entryPoint {
 		{Name: "CopyToDirectory", Methods: []string{"CopyToDirectoryWithContext"}, Run: func(ctx context.Context, e *fsEnv) error {
 			return e.fs.CopyToDirectoryWithContext(ctx, e.P("/t/src"), e.P("/t/outdir"))
 		}},
-		{Name: "Copy", Methods: []string{"CopyWithContext"}, Run: func(ctx context.Context, e *fsEnv) error { return e.fs.CopyWithContext(ctx, e.P("/t/src"), e.P("/t/copy")) }},
+		{Name: "Copy", Methods: []string{"CopyWithContext"}, Run: func(ctx context.Context, e *fsEnv) error {
+			return e.fs.CopyWithContext(ctx, e.P("/t/src"), e.P("/t/copy"))
+		}},
 		{Name: "CopyExcl", Methods: []string{"CopyWithContextAndExclusionPatterns"}, Run: func(ctx context.Context, e *fsEnv) error {
 			return e.fs.CopyWithContextAndExclusionPatterns(ctx, e.P("/t/src"), e.P("/t/copy"), "f000.*")
 		}},
@@ -396,7 +418,9 @@ func entryPoints() []entryPoint {
 		{Name: "GarbageCollect", Concurrent: true, Methods: []string{"GarbageCollectWithContext"}, Run: func(ctx context.Context, e *fsEnv) error {
 			return e.fs.GarbageCollectWithContext(ctx, e.P("/t/src"), -time.Hour)
 		}},
-		{Name: "Zip", Methods: []string{"ZipWithContext"}, Run: func(ctx context.Context, e *fsEnv) error { return e.zipResult(e.fs.ZipWithContext(ctx, e.P("/t/src"), e.P("/t/out.zip"))) }},
+		{Name: "Zip", Methods: []string{"ZipWithContext"}, Run: func(ctx context.Context, e *fsEnv) error {
+			return e.zipResult(e.fs.ZipWithContext(ctx, e.P("/t/src"), e.P("/t/out.zip")))
+		}},
 		{Name: "ZipLimits", Methods: []string{"ZipWithContextAndLimits"}, Run: func(ctx context.Context, e *fsEnv) error {
 			return e.zipResult(e.fs.ZipWithContextAndLimits(ctx, e.P("/t/src"), e.P("/t/out.zip"), lim()))
 		}},
@@ -460,27 +484,28 @@ func kindOf(err error) string {
 func isCancelKind(k string) bool { return k == "cancelled" || k == "timeout" }
 
 type fsResult struct {
-	Kind     string
-	Err      string
-	Total    int64 // backend operations issued by the call
-	After    int64 // issued after the k-th (the cancelling) one
-	MutAfter int   // mutating ones among those
-	Fired    bool
-	Diff     []string
-	OpsAfter []string
-	Final    map[string]string
-	Result   []string
+	Kind        string
+	Err         string
+	Total       int64 // backend operations issued by the call
+	After       int64 // issued after the k-th (the cancelling) one
+	MutAfter    int   // mutating ones among those
+	Fired       bool
+	Diff        []string
+	OpsAfter    []string
+	Final       map[string]string
+	Result      []string
+	ForcedAfter int // recursive / forced removals (one backend operation, unbounded work) issued after the context ended
 }
 
 type fsCase struct {
-	EP     string   `json:"entry_point"`
-	Spec   treeSpec `json:"tree"`
-	Mode   string   `json:"mode"` // pre-cancelled | pre-deadline | cancel-at | gc-barrier
-	K      int64    `json:"k,omitempty"`
-	Fanout int      `json:"fanout,omitempty"`
-	Arg     string  `json:"argument,omitempty"` // OS back end: plain | arg-is-link | arg-is-dangling
-	Backend string  `json:"backend,omitempty"`  // "" (in-memory) | os
-	Ctx     string  `json:"context,omitempty"`  // how the context ends (ctxflavours.go); "": cancel(), or a past deadline for pre-deadline
+	EP      string   `json:"entry_point"`
+	Spec    treeSpec `json:"tree"`
+	Mode    string   `json:"mode"` // pre-cancelled | pre-deadline | cancel-at | gc-barrier
+	K       int64    `json:"k,omitempty"`
+	Fanout  int      `json:"fanout,omitempty"`
+	Arg     string   `json:"argument,omitempty"` // OS back end: plain | arg-is-link | arg-is-dangling
+	Backend string   `json:"backend,omitempty"`  // "" (in-memory) | os
+	Ctx     string   `json:"context,omitempty"`  // how the context ends (ctxflavours.go); "": cancel(), or a past deadline for pre-deadline
 }
 
 func (c fsCase) flavour() string { return defaultFlavour(c.Mode, c.Ctx) }
@@ -542,6 +567,7 @@ func runFS(ep *entryPoint, spec treeSpec, mode string, k int64, wantFinal bool, 
 		endCtx()
 	}
 	var fired atomic.Bool
+	var removes atomic.Int64
 	base := e.sh.Count()
 	e.sh.ResetLog()
 	e.sh.Rec = true
@@ -554,6 +580,9 @@ func runFS(ep *entryPoint, spec treeSpec, mode string, k int64, wantFinal bool, 
 		}
 		if ep.RenameFails && op.Name == "Rename" {
 			return &os.LinkError{Op: "rename", Old: op.Path, New: op.Path2, Err: errCrossDevice}
+		}
+		if ep.RemoveFault > 0 && op.Name == "Remove" && removes.Add(1) == int64(ep.RemoveFault) {
+			return &os.PathError{Op: "remove", Path: op.Path, Err: syscall.EPERM}
 		}
 		return nil
 	})
@@ -585,6 +614,9 @@ func runFS(ep *entryPoint, spec treeSpec, mode string, k int64, wantFinal bool, 
 				}
 				if len(res.OpsAfter) < 40 {
 					res.OpsAfter = append(res.OpsAfter, op.Name)
+				}
+				if op.Name == "ForceRemove" || op.Name == "RemoveAll" {
+					res.ForcedAfter++
 				}
 			}
 		}
@@ -646,6 +678,9 @@ func checkCancelAt(c fsCase, res fsResult, full fsResult) (fs []failure) {
 	if res.After > opsAfterBound {
 		fs = append(fs, failure{"ops-after-cancel-unbounded:" + c.EP, fmt.Sprintf("%s on %d entries, context cancelled inside backend operation %d: %d further backend operations (%d mutating), bound %d; first ones %v",
 			c.EP, c.Spec.entries(), c.K, res.After, res.MutAfter, opsAfterBound, res.OpsAfter), c})
+	}
+	if res.ForcedAfter > 0 {
+		fs = append(fs, failure{"forced-removal-after-context-end:" + c.EP, fmt.Sprintf("%s, context ended (%s) inside backend operation %d: %d forced / recursive removal(s) issued afterwards (kind returned: %s)", c.EP, c.flavour(), c.K, res.ForcedAfter, res.Kind), c})
 	}
 	if want := wantKind(c.flavour()); res.Kind != want {
 		// the only other acceptable outcome: the work was finished anyway (the context ended at the very end) — then the
